@@ -964,6 +964,470 @@ fn check_sync_case(
 }
 
 // ---------------------------------------------------------------------------------------
+// manager sessions: long-lived AntiEntropyManagers driven through sequences of events
+// ---------------------------------------------------------------------------------------
+//
+// The manager is stateful across exchanges: `generation` (advanced only by on_local_write),
+// `peer_digests` (last digest per peer), `divergent_peers` (flags, also set by
+// on_partition_healed), `last_sync_time` (set by create_sync_request, cleared by
+// on_partition_healed), `pending_requests` / `pending_responses` (queues drained by the
+// transport). No production code calls these entry points (only the simulator uses
+// generate_digest / get_keys_in_buckets), so the call pattern is the documented one:
+// on_local_write once per local write ("Increment generation on local write", as the
+// stateright model's LocalWrite does), never for state changes that arrive by replication;
+// digest exchange = both sides process_peer_digest the other's fresh digest (stateright
+// ExchangeDigest); a divergent verdict is followed by create_sync_request ->
+// handle_sync_request -> apply the response deltas -> process_peer_digest(response.digest)
+// ("for bidirectional sync"), with the requester's keys of the same buckets pushed back as
+// run_anti_entropy_sync does.
+
+#[derive(Clone, Debug, Serialize, Deserialize)]
+enum MEv {
+    Write { n: u8, key: u8, p: u8, exp: u8 },
+    Delete { n: u8, key: u8 },
+    HSet { n: u8, key: u8, f: u8, p: u8 },
+    /// replication of one key / of everything `from` holds: the receiver's state changes
+    /// WITHOUT on_local_write
+    Gossip { from: u8, to: u8, key: u8 },
+    GossipAll { from: u8, to: u8 },
+    /// digest exchange between a and b; `complete`: a divergent verdict at a is followed by the
+    /// request / response round trip
+    Exchange { a: u8, b: u8, complete: bool },
+    Heal { a: u8, b: u8 },
+    Tick { ms: u16 },
+}
+
+#[derive(Clone, Debug, Serialize, Deserialize)]
+struct MCase {
+    /// 2 or 3 replicas
+    nodes: u8,
+    depth: u8,
+    limit: u8,
+    events: Vec<MEv>,
+}
+
+struct MNode {
+    st: ShardReplicaState,
+    mgr: AntiEntropyManager,
+    /// harness model of last_sync_time (time of the last sync request per peer)
+    last_req: BTreeMap<u64, u64>,
+    /// our own root hash at the last digest exchange with each peer (labels only)
+    our_root_at: BTreeMap<u64, u64>,
+}
+
+/// The verdict of `process_peer_digest` against the states themselves.
+#[allow(clippy::too_many_arguments)]
+fn expect_verdict(
+    what: &str,
+    verdict: &Option<Vec<usize>>,
+    ours: &Map,
+    theirs: &Map,
+    depth: usize,
+    ctx: &mut CaseCtx<'_>,
+    tol: &mut Tol,
+) -> Result<(), String> {
+    let (io, it) = (ideal(ours, depth), ideal(theirs, depth));
+    let nb = 1usize << depth;
+    let div: BTreeSet<usize> = (0..nb).filter(|i| io[*i] != it[*i]).collect();
+    let fold_open = ctx.finding_open(KF_FOLD);
+    let multi = |i: usize| io[i].len() >= 2 || it[i].len() >= 2;
+    if !div.is_empty() {
+        ctx.label("verdict_expected:divergent");
+        match verdict {
+            None => {
+                let keys: BTreeSet<&String> = ours.keys().chain(theirs.keys()).collect();
+                let client: Vec<&String> = keys
+                    .into_iter()
+                    .filter(|k| cv(ours.get(*k)) != cv(theirs.get(*k)))
+                    .collect();
+                return Err(format!(
+                    "false 'in sync': {}: process_peer_digest returned None (no sync request is built) although buckets {:?} hold different key digests (depth {}); keys that differ for a client: {:?}",
+                    what, div, depth, client
+                ));
+            }
+            Some(v) => {
+                for b in &div {
+                    if !v.contains(b) {
+                        return Err(format!(
+                            "{}: process_peer_digest reported buckets {:?} but bucket {} holds different key digests too (depth {})",
+                            what, v, b, depth
+                        ));
+                    }
+                }
+                for b in v {
+                    if !div.contains(b) && !(fold_open && multi(*b) && tol.tolerate(ctx, KF_FOLD)) {
+                        return Err(format!(
+                            "false 'divergent': {}: process_peer_digest reported bucket {} which holds the same key digests on both sides (depth {})",
+                            what, b, depth
+                        ));
+                    }
+                }
+            }
+        }
+    } else {
+        ctx.label("verdict_expected:in_sync");
+        let keys: BTreeSet<&String> = ours.keys().chain(theirs.keys()).collect();
+        for k in keys {
+            let (x, y) = (ours.get(k), theirs.get(k));
+            if cv(x) != cv(y) {
+                match (x, y) {
+                    (Some(x), Some(y)) if blind_signature(k, x, y) && tol.tolerate(ctx, KF_BLIND) => {
+                        ctx.label("digest_blind_difference");
+                    }
+                    _ => {
+                        return Err(format!(
+                            "false 'in sync': {}: key {:?} differs for a client but the two states have equal key digests:\n  ours:   {}\n  theirs: {}",
+                            what, k, pv(x), pv(y)
+                        ))
+                    }
+                }
+            }
+        }
+        if let Some(v) = verdict {
+            let any_multi = (0..nb).any(multi);
+            if !(fold_open && any_multi && tol.tolerate(ctx, KF_FOLD)) {
+                return Err(format!(
+                    "false 'divergent': {}: process_peer_digest returned {:?} although every bucket holds the same key digests on both sides (depth {})",
+                    what, v, depth
+                ));
+            }
+        }
+    }
+    Ok(())
+}
+
+/// Which path through the manager's cached state this digest takes (evidence labels).
+fn label_cache_path(node: &MNode, incoming: &StateDigest, our: &StateDigest, ctx: &mut CaseCtx<'_>) -> bool {
+    let peer = incoming.replica_id;
+    let flagged = node.mgr.divergent_peers.contains(&peer);
+    ctx.label(if flagged { "path:peer_flagged_divergent" } else { "path:peer_not_flagged" });
+    let our_changed = node
+        .our_root_at
+        .get(&peer.0)
+        .map(|r| *r != our.root_hash)
+        .unwrap_or(false);
+    match node.mgr.peer_digests.get(&peer) {
+        None => {
+            ctx.label("path:cache_miss_first_contact");
+            false
+        }
+        Some(k) => {
+            let same_gen = k.generation == incoming.generation;
+            let same_state = k.root_hash == incoming.root_hash;
+            ctx.label(match (same_gen, same_state) {
+                (true, true) => "path:cache_hit_same_generation_peer_unchanged",
+                (true, false) => "path:cache_hit_same_generation_peer_changed_by_replication",
+                (false, true) => "path:cache_hit_generation_advanced_same_state",
+                (false, false) => "path:cache_hit_generation_advanced_peer_changed",
+            });
+            if our_changed {
+                ctx.label(if same_state {
+                    "path:only_our_side_changed"
+                } else {
+                    "path:both_sides_changed"
+                });
+            } else if !same_state {
+                ctx.label("path:only_peer_changed");
+            } else {
+                ctx.label("path:nothing_changed_since_last_exchange");
+            }
+            true
+        }
+    }
+}
+
+/// `peers_needing_sync` = flagged peers + peers whose last sync request is older than the interval.
+fn check_needs_sync(
+    what: &str,
+    node: &MNode,
+    peer: ReplicaId,
+    flagged: bool,
+    now: u64,
+    ctx: &mut CaseCtx<'_>,
+) -> Result<(), String> {
+    let interval = node.mgr.config.sync_interval_ms;
+    let elapsed = node
+        .last_req
+        .get(&peer.0)
+        .map(|t| now - *t >= interval)
+        .unwrap_or(false);
+    let listed = node.mgr.peers_needing_sync(now).contains(&peer);
+    if elapsed {
+        ctx.label("needs_sync:interval_elapsed");
+    }
+    if listed != (flagged || elapsed) {
+        return Err(format!(
+            "{}: peers_needing_sync({}) {} r{} although the peer is {}flagged divergent and the last sync request was {}",
+            what,
+            now,
+            if listed { "lists" } else { "does not list" },
+            peer.0,
+            if flagged { "" } else { "not " },
+            match node.last_req.get(&peer.0) {
+                Some(t) => format!("at {} (interval {})", t, interval),
+                None => "never made".to_string(),
+            }
+        ));
+    }
+    let never = !node.last_req.contains_key(&peer.0);
+    if node.mgr.should_sync(peer, now) != (never || elapsed) {
+        return Err(format!(
+            "{}: should_sync(r{}, {}) = {} but the last sync request was {:?} (interval {})",
+            what,
+            peer.0,
+            now,
+            node.mgr.should_sync(peer, now),
+            node.last_req.get(&peer.0),
+            interval
+        ));
+    }
+    Ok(())
+}
+
+#[allow(clippy::too_many_arguments)]
+fn session_exchange(
+    nodes: &mut [MNode],
+    a: usize,
+    b: usize,
+    complete: bool,
+    now: u64,
+    depth: usize,
+    limit: usize,
+    idx: usize,
+    ctx: &mut CaseCtx<'_>,
+    tol: &mut Tol,
+) -> Result<bool, String> {
+    let (ra, rb) = (nodes[a].st.replica_id, nodes[b].st.replica_id);
+    let a0 = nodes[a].st.replicated_keys.clone();
+    let b0 = nodes[b].st.replicated_keys.clone();
+    let da = nodes[a].mgr.generate_digest(&a0);
+    let db = nodes[b].mgr.generate_digest(&b0);
+    let hit_a = label_cache_path(&nodes[a], &db, &da, ctx);
+    let hit_b = label_cache_path(&nodes[b], &da, &db, ctx);
+    let va = nodes[a].mgr.process_peer_digest(db.clone(), &da);
+    let vb = nodes[b].mgr.process_peer_digest(da.clone(), &db);
+    nodes[a].our_root_at.insert(rb.0, da.root_hash);
+    nodes[b].our_root_at.insert(ra.0, db.root_hash);
+    expect_verdict(
+        &format!("event #{}: r{} processes the digest of r{}", idx, ra.0, rb.0),
+        &va, &a0, &b0, depth, ctx, tol,
+    )?;
+    expect_verdict(
+        &format!("event #{}: r{} processes the digest of r{}", idx, rb.0, ra.0),
+        &vb, &b0, &a0, depth, ctx, tol,
+    )?;
+    check_needs_sync(&format!("event #{}: r{}", idx, ra.0), &nodes[a], rb, va.is_some(), now, ctx)?;
+    check_needs_sync(&format!("event #{}: r{}", idx, rb.0), &nodes[b], ra, vb.is_some(), now, ctx)?;
+    ctx.add_evaluations(2);
+    let buckets = match (&va, complete) {
+        (Some(v), true) => v.clone(),
+        _ => return Ok(hit_a || hit_b),
+    };
+    ctx.label("round_trip");
+
+    // request, carried by the manager's own queues
+    let req = nodes[a].mgr.create_sync_request(rb, da, Some(buckets.clone()), now);
+    nodes[a].last_req.insert(rb.0, now);
+    nodes[a].mgr.pending_requests.push(req);
+    let mut reqs = nodes[a].mgr.drain_requests();
+    if reqs.len() != 1 || !nodes[a].mgr.drain_requests().is_empty() {
+        return Err(format!("event #{}: drain_requests returned {} requests for 1 queued (or did not empty the queue)", idx, reqs.len()));
+    }
+    let req = reqs.pop().unwrap();
+    if req.from_replica != ra || req.to_replica != rb || req.requested_buckets.as_deref() != Some(&buckets[..]) {
+        return Err(format!("event #{}: create_sync_request built {:?} -> {:?} buckets {:?}, expected r{} -> r{} buckets {:?}", idx, req.from_replica, req.to_replica, req.requested_buckets, ra.0, rb.0, buckets));
+    }
+    check_needs_sync(&format!("event #{}: r{} after create_sync_request", idx, ra.0), &nodes[a], rb, true, now, ctx)?;
+
+    let resp = nodes[b].mgr.handle_sync_request(req, &b0);
+    if resp.deltas.len() > limit {
+        return Err(format!("event #{}: handle_sync_request returned {} deltas with max_keys_per_sync = {}", idx, resp.deltas.len(), limit));
+    }
+    for d in &resp.deltas {
+        let bk = bucket_of(&d.key, &d.value, depth);
+        if !buckets.contains(&bk) {
+            return Err(format!("event #{}: handle_sync_request sent key {:?} of bucket {} which was not requested ({:?})", idx, d.key, bk, buckets));
+        }
+    }
+    // the responder has seen a digest that differs from its own: it must know the peer diverges
+    check_needs_sync(&format!("event #{}: responder r{} after handle_sync_request", idx, rb.0), &nodes[b], ra, true, now, ctx)?;
+    let push = nodes[a].mgr.get_keys_in_buckets(&a0, &buckets);
+    if push.len() > limit {
+        return Err(format!("event #{}: get_keys_in_buckets returned {} deltas with max_keys_per_sync = {}", idx, push.len(), limit));
+    }
+    nodes[b].mgr.pending_responses.push(resp);
+    let mut resps = nodes[b].mgr.drain_responses();
+    if resps.len() != 1 || !nodes[b].mgr.drain_responses().is_empty() {
+        return Err(format!("event #{}: drain_responses returned {} responses for 1 queued (or did not empty the queue)", idx, resps.len()));
+    }
+    let resp = resps.pop().unwrap();
+    for d in resp.deltas {
+        nodes[a].st.apply_remote_delta(d);
+    }
+    // bidirectional: the requester compares its new state with the responder's digest
+    let a1 = nodes[a].st.replicated_keys.clone();
+    let da1 = nodes[a].mgr.generate_digest(&a1);
+    label_cache_path(&nodes[a], &resp.digest, &da1, ctx);
+    let v3 = nodes[a].mgr.process_peer_digest(resp.digest, &da1);
+    nodes[a].our_root_at.insert(rb.0, da1.root_hash);
+    expect_verdict(
+        &format!("event #{}: r{} processes the response digest of r{} after applying its deltas", idx, ra.0, rb.0),
+        &v3, &a1, &b0, depth, ctx, tol,
+    )?;
+    check_needs_sync(&format!("event #{}: r{} after the response", idx, ra.0), &nodes[a], rb, v3.is_some(), now, ctx)?;
+    for d in push {
+        nodes[b].st.apply_remote_delta(d);
+    }
+    ctx.add_evaluations(2);
+
+    let mut p = plan(&a0, &b0, depth, limit, ctx.finding_open(KF_FOLD));
+    p.rounds = 1;
+    let liveness = if p.over_limit {
+        ctx.label("round_trip:more_keys_than_limit");
+        !tol.tolerate(ctx, KF_STUCK)
+    } else {
+        ctx.label("round_trip:within_limit_merge_asserted");
+        true
+    };
+    check_after_sync(
+        &format!("event #{}: manager round trip r{} <-> r{}", idx, ra.0, rb.0),
+        &a0, &b0,
+        &nodes[a].st.replicated_keys, &nodes[b].st.replicated_keys,
+        &p, liveness, depth, limit, ctx, tol,
+    )?;
+    Ok(true)
+}
+
+fn check_session(case: &MCase, ctx: &mut CaseCtx<'_>) -> Result<(), String> {
+    let n = if case.nodes % 2 == 0 { 2usize } else { 3 };
+    let depth = DEPTHS[case.depth as usize % DEPTHS.len()];
+    let limit = LIMITS[case.limit as usize % LIMITS.len()];
+    ctx.label(&format!("depth:{}", depth));
+    ctx.label(&format!("limit:{}", limit));
+    let mut tol = Tol::default();
+    let mut nodes: Vec<MNode> = (0..n)
+        .map(|i| {
+            let rid = ReplicaId::new(i as u64 + 1);
+            MNode {
+                st: ShardReplicaState::new(rid, ConsistencyLevel::Eventual),
+                mgr: AntiEntropyManager::new(
+                    rid,
+                    AntiEntropyConfig {
+                        merkle_tree_depth: depth,
+                        max_keys_per_sync: limit,
+                        ..AntiEntropyConfig::default()
+                    },
+                ),
+                last_req: BTreeMap::new(),
+                our_root_at: BTreeMap::new(),
+            }
+        })
+        .collect();
+    let mut now: u64 = 0;
+    let mut cached_exchanges = 0usize;
+    for (idx, ev) in case.events.iter().enumerate() {
+        match ev {
+            MEv::Write { n: i, key, p, exp } => {
+                let i = *i as usize % n;
+                nodes[i].st.record_write(
+                    format!("k{}", key % 6),
+                    SDS::from_str(PAYLOADS[*p as usize % 4]),
+                    EXPIRY[*exp as usize % 3],
+                );
+                nodes[i].mgr.on_local_write();
+            }
+            MEv::Delete { n: i, key } => {
+                let i = *i as usize % n;
+                if nodes[i].st.record_delete(format!("k{}", key % 6)).is_some() {
+                    nodes[i].mgr.on_local_write();
+                }
+            }
+            MEv::HSet { n: i, key, f, p } => {
+                let i = *i as usize % n;
+                nodes[i].st.record_hash_write(
+                    format!("k{}", key % 6),
+                    vec![(FIELDS[*f as usize % 3].to_string(), SDS::from_str(PAYLOADS[*p as usize % 4]))],
+                );
+                nodes[i].mgr.on_local_write();
+            }
+            MEv::Gossip { from, to, key } => {
+                let (from, to) = (*from as usize % n, *to as usize % n);
+                let k = format!("k{}", key % 6);
+                if from != to {
+                    if let Some(v) = nodes[from].st.replicated_keys.get(&k).cloned() {
+                        let src = nodes[from].st.replica_id;
+                        nodes[to].st.apply_remote_delta(ReplicationDelta::new(k, v, src));
+                    }
+                }
+            }
+            MEv::GossipAll { from, to } => {
+                let (from, to) = (*from as usize % n, *to as usize % n);
+                if from != to {
+                    let src = nodes[from].st.replica_id;
+                    let mut all: Vec<(String, ReplicatedValue)> = nodes[from]
+                        .st
+                        .replicated_keys
+                        .iter()
+                        .map(|(k, v)| (k.clone(), v.clone()))
+                        .collect();
+                    all.sort_by(|x, y| x.0.cmp(&y.0));
+                    for (k, v) in all {
+                        nodes[to].st.apply_remote_delta(ReplicationDelta::new(k, v, src));
+                    }
+                }
+            }
+            MEv::Exchange { a, b, complete } => {
+                let (a, b) = (*a as usize % n, *b as usize % n);
+                if a != b
+                    && session_exchange(&mut nodes, a, b, *complete, now, depth, limit, idx, ctx, &mut tol)?
+                {
+                    cached_exchanges += 1;
+                }
+            }
+            MEv::Heal { a, b } => {
+                let (a, b) = (*a as usize % n, *b as usize % n);
+                if a != b {
+                    let (ra, rb) = (nodes[a].st.replica_id, nodes[b].st.replica_id);
+                    nodes[a].mgr.on_partition_healed(rb);
+                    nodes[b].mgr.on_partition_healed(ra);
+                    // auto_sync_on_heal (default): flagged, and the last sync time is forgotten
+                    nodes[a].last_req.remove(&rb.0);
+                    nodes[b].last_req.remove(&ra.0);
+                    ctx.label("partition_healed");
+                    check_needs_sync(&format!("event #{}: r{} after on_partition_healed", idx, ra.0), &nodes[a], rb, true, now, ctx)?;
+                    check_needs_sync(&format!("event #{}: r{} after on_partition_healed", idx, rb.0), &nodes[b], ra, true, now, ctx)?;
+                }
+            }
+            MEv::Tick { ms } => now += *ms as u64,
+        }
+    }
+    // non-trivial: some exchange met a manager that already held a cached digest of the peer
+    if cached_exchanges > 0 {
+        ctx.nontrivial(&format!("{:?}", case));
+    }
+    Ok(())
+}
+
+fn mev() -> impl Strategy<Value = MEv> {
+    let n = || 0u8..3;
+    prop_oneof![
+        4 => (n(), 0u8..6, 0u8..4, 0u8..3).prop_map(|(n, key, p, exp)| MEv::Write { n, key, p, exp }),
+        1 => (n(), 0u8..6).prop_map(|(n, key)| MEv::Delete { n, key }),
+        2 => (n(), 0u8..6, 0u8..3, 0u8..4).prop_map(|(n, key, f, p)| MEv::HSet { n, key, f, p }),
+        3 => (n(), n(), 0u8..6).prop_map(|(from, to, key)| MEv::Gossip { from, to, key }),
+        2 => (n(), n()).prop_map(|(from, to)| MEv::GossipAll { from, to }),
+        7 => (n(), n(), prop::bool::weighted(0.6)).prop_map(|(a, b, complete)| MEv::Exchange { a, b, complete }),
+        1 => (n(), n()).prop_map(|(a, b)| MEv::Heal { a, b }),
+        2 => prop_oneof![Just(0u16), 1u16..600, 900u16..2500].prop_map(|ms| MEv::Tick { ms }),
+    ]
+}
+
+fn mcase_strategy() -> impl Strategy<Value = MCase> {
+    (0u8..2, 0u8..5, 0u8..4, proptest::collection::vec(mev(), 2..28))
+        .prop_map(|(nodes, depth, limit, events)| MCase { nodes, depth, limit, events })
+}
+
+// ---------------------------------------------------------------------------------------
 // generators
 // ---------------------------------------------------------------------------------------
 
@@ -1172,6 +1636,12 @@ fn main() {
     s.run_cases("sync_sim", s.scale(20_000, 1_200_000), || case_strategy(true), |c, ctx| {
         check_sync_reps(c, true, reps, ctx)
     });
+
+    s.describe_check(
+        "manager_sessions",
+        "2-3 replicas, each with ONE long-lived AntiEntropyManager, through generated event sequences (local writes with on_local_write, replication without it, digest exchanges in both directions, request/response round trips over the manager's queues, partition heal, time): every process_peer_digest verdict against the states themselves, peers_needing_sync/should_sync against flags and times, the round trip against the merge",
+    );
+    s.run_cases("manager_sessions", s.scale(6_000, 1_500_000), mcase_strategy, check_session);
 
     s.finish();
 }
